@@ -242,7 +242,7 @@ theorem idle_timeouts (cs : ConnState) (now : Nat) (h : cs.lastSeen ≤ now) (hn
     · simp
     · rename_i hh
       simp only [UPDATE_INTERVAL] at hh
-      simp only; omega
+      omega
 
 /-! ## The record the control plane reads: byte layout -/
 
@@ -280,5 +280,87 @@ network order, ports in network order, protocol, three zero bytes). -/
 theorem lookup_key_layout (k : Key) :
     goKey k.sip k.sport k.dip k.dport k.l4 = encKey k ∧ (encKey k).length = 40 :=
   ⟨rfl, encKey_length k⟩
+
+/-! ## Non-vacuity: concrete frames and worlds meeting the hypotheses
+
+`exSyn` is the 54-byte Ethernet/IPv4/TCP frame 192.168.1.10:40000 → 1.2.3.4:443 with SYN set,
+`exAck` the same with ACK only, `exDns` a UDP datagram to port 53; `exK` the flow's 5-tuple. -/
+
+def exHdr : Bytes :=
+  [2,0,0,0,0,2, 2,0,0,0,0,1, 8,0,
+   0x45,0,0,0x28,0,0,0,0,0x40,6,0,0,192,168,1,10,1,2,3,4]
+def exSynBytes : Bytes := exHdr ++ [0x9c,0x40,0x01,0xbb,0,0,0,1,0,0,0,2,0x50,0x02,0x03,0xe8,0,0,0,0]
+def exAckBytes : Bytes := exHdr ++ [0x9c,0x40,0x01,0xbb,0,0,0,1,0,0,0,2,0x50,0x10,0x03,0xe8,0,0,0,0]
+def exSyn : Skb := ⟨⟨exSynBytes, 54, true, 0x0800⟩, 3, 3, 0, 0, none⟩
+def exAck : Skb := ⟨⟨exAckBytes, 54, true, 0x0800⟩, 3, 3, 0, 0, none⟩
+/-- the same SYN leaving the host through the WAN hook, socket cookie 5 -/
+def exSynWan : Skb := ⟨⟨exSynBytes, 20, false, 0x0800⟩, 0, 2, 0, 5, none⟩
+def exK : Key := ⟨281473913979146, 281470698652420, 40000, 443, 6⟩
+def exSynPkt : Pkt := ⟨2048, [2,0,0,0,0,1], [2,0,0,0,0,2], ⟨exK, 0⟩, true, false, false, false, 6, 6⟩
+def exAckPkt : Pkt := ⟨2048, [2,0,0,0,0,1], [2,0,0,0,0,2], ⟨exK, 0⟩, false, true, false, false, 6, 0⟩
+/-- group 2, alive for (tcp, IPv4) -/
+def exWorld : World := { alive := [(12, 1)] }
+/-- flow `exK` tracked with decision (group 2, mark 0, not must) -/
+def exTracked : World :=
+  { exWorld with conn := [(exK, ⟨false, 0, 1000000000, 0, 2, 0, 0, 1, [2,0,0,0,0,1], zeros 16, 0⟩)] }
+/-- dae is pid 777 behind cookie 5 -/
+def exDaeWorld : World := { exTracked with cookies := [(5, ⟨0, 777, zeros 16⟩)], param := { ctlPid := 777 } }
+
+-- both parse paths deliver the packet (fast path on the linear frame; byte-load path when only 20
+-- bytes are linear and the pull failed)
+example : parsePacket exSyn.raw true = .pkt exSynPkt ∧ parsePacket exSynWan.raw true = .pkt exSynPkt ∧
+    parsePacket exAck.raw true = .pkt exAckPkt := by decide
+
+-- `lan_new_tcp_connection`: all hypotheses hold for `exSyn` in `exWorld` with a rule program that
+-- answers "group 2", and the fate is a hand-over to dae
+example : parsePacket exSyn.raw true = .pkt exSynPkt ∧ exSynPkt.l4proto = IPPROTO_TCP ∧ exSynPkt.syn = true ∧
+    exSynPkt.ack = false ∧ (0 : Int) ≤ (fun _ => (2 : Int)) (lanRouteIn exSyn exSynPkt) ∧
+    connRoom exWorld exSynPkt.tuples.five ∧ rtrackRoom exWorld exSyn exSynPkt ∧
+    lanFate exWorld exSyn exSynPkt (unpackRoute 2) = .toDae := by
+  refine ⟨by decide, rfl, rfl, rfl, by decide, by unfold connRoom; decide, Or.inr (by decide), by decide⟩
+
+-- the map-full case of `lan_new_tcp_map_full`
+example : ¬ connRoom { exWorld with connCap := 0 } exK := by unfold connRoom; decide
+
+-- `lan_tracked_tcp_follows_cache` / `sticky_decision`: a tracked, live flow and a run of two frames
+-- of it (an ACK on LAN ingress with the rules swapped to "block", then the same on WAN egress)
+example : Tracked exTracked exK ⟨2, 0, 0⟩ ∧ tcpLive exTracked exK false ≠ none ∧
+    (exK.l4 = IPPROTO_TCP ∨ exK.l4 = IPPROTO_UDP) ∧ shortLivedUdp exK = false ∧
+    KeepsTracking exK exTracked
+      [⟨fun _ => 1, id, .lanIngress, exAck, true⟩, ⟨fun _ => 0, fun w => { w with now := w.now + 5000000000 }, .lanIngress, exAck, true⟩] ∧
+    EnvOk ⟨fun _ => 0, fun w => { w with now := w.now + 5000000000 }, .lanIngress, exAck, true⟩ := by
+  refine ⟨⟨_, rfl, by decide, rfl, rfl⟩, by decide, Or.inl rfl, by decide, ⟨fun _ => ⟨by decide, by decide⟩,
+    fun _ => ⟨by decide, by decide⟩, trivial⟩, fun _ => rfl⟩
+
+-- `dae_tcp_syn_passes_and_clears` / `dae_connection_never_recaptured`: dae's SYN on a 5-tuple whose
+-- earlier (proxied) flow is still tracked; afterwards an ACK of dae's connection is not a new connection
+example : exSynWan.ingressIf = 0 ∧ (pidIsControlPlane exDaeWorld exSynWan).isCp = true ∧
+    Tracked exDaeWorld exK ⟨2, 0, 0⟩ ∧
+    NoNewConnection exK (wanEgress (fun _ => 2) exDaeWorld exSynWan true).1
+      [⟨fun _ => 2, id, .wanEgress, { exAck with ingressIf := 0, cookie := 9 }, true⟩] := by
+  refine ⟨rfl, by decide, ⟨_, rfl, by decide, rfl, rfl⟩, ⟨fun p hp _ hs => ?_, trivial⟩⟩
+  have : p = exAckPkt := by
+    have h2 : parsePacket exAck.raw true = .pkt exAckPkt := by decide
+    have h3 : parsePacket ({ exAck with ingressIf := 0, cookie := 9 } : Skb).raw true = .pkt exAckPkt := h2
+    rw [h3] at hp; injection hp with hp; exact hp.symm
+  subst this
+  exact absurd hs (by decide)
+
+-- `wan_ingress_syn_marks_reverse_tuple` / `wan_originated_tcp_replies_pass`: the SYN seen from the WAN side
+def exSynCtx : Ctx :=
+  { ethProto := 2048, ethSrc := [2,0,0,0,0,1], ethDst := [2,0,0,0,0,2], ipVersion := 4, ipSaddr := [192,168,1,10],
+    ipDaddr := [1,2,3,4], l4proto := 6, listener := 6, tcpSport := 40000, tcpDport := 443, tcpSyn := true }
+example : parseTransport exSyn.raw true = .ret 0 exSynCtx ∧ exSynCtx.l4proto = IPPROTO_TCP ∧
+    exSynCtx.tcpSyn = true ∧ exSynCtx.tcpAck = false ∧ connRoom exWorld (getTuples exSynCtx).five.rev := by
+  refine ⟨by decide, rfl, rfl, rfl, by unfold connRoom; decide⟩
+
+-- `wan_originated_udp_replies_pass`: a live WAN-originated UDP entry
+example : WanOriginated ({ conn := [(⟨1, 2, 5000, 6000, 17⟩, ⟨true, 0, 1000000000, 0, 0, 0, 0, 0, zeros 6, zeros 16, 0⟩)] } : World)
+    ⟨1, 2, 5000, 6000, 17⟩ ∧ shortLivedUdp ⟨1, 2, 5000, 6000, 17⟩ = false :=
+  ⟨⟨_, rfl, rfl, rfl⟩, by decide⟩
+
+-- `conn_state_layout` / `handoff_layout`: in-range records exist
+example : (⟨false, 0, 5, 0xffffffff, 2, 1, 63, 1, [1,2,3,4,5,6], zeros 16, 4242⟩ : ConnState).mark < 2 ^ 32 ∧
+    ([1,2,3,4,5,6] : Bytes).length = 6 ∧ (zeros 16).length = 16 := by decide
 
 end DaeVerif.C03.Props
